@@ -102,6 +102,8 @@ pub const VARIANT: &str = if cfg!(feature = "inproc") {
     "asy"
 } else if cfg!(feature = "asan") {
     "asan"
+} else if cfg!(feature = "hook") {
+    "hook"
 } else {
     "os"
 };
